@@ -396,14 +396,19 @@ def _sides_touched(ctx, body):
 
 def rule_b_comp(ctx):
     R = RuleResult("B-comp", "every method of a composite iterator that touches its main side also touches its old side; owning iterators return "
-                   "None only after the old side is exhausted or absent and the main side returned None; size_hint adds both sides component-wise (I-sum)")
+                   "None only after the old side is exhausted or absent and the main side returned None; size_hint is decided exactly over a four-atom algebra "
+                   "(main.lower + old.lower, main.upper + old.upper with the old side present, the main side's own hint with it absent: I-sum); a method that "
+                   "drives both sides itself (fold ..) visits them in next()'s order")
     ro = ctx.roles
     n = 0
     for adt, name, b in composite_methods(ctx):
+        sides = _sides_touched(ctx, b)
         if name not in ("next", "size_hint", "clone", "iter", "len", "drive_unindexed", "fold"):
+            # any other method that consumes the sides itself (a hand-written fold, for_each, nth, ..) must visit them in the order next() does
+            if ro.composites[adt]["family"] in ("iter", "into", "drain") and sides:
+                _check_visit_order(ctx, R, adt, b, "%s:%s" % (b.path, name))
             continue
         n += 1
-        sides = _sides_touched(ctx, b)
         key = "%s:%s" % (b.path, name)
         ok = not ("IT_MAIN" in sides and "IT_OLD" not in sides)
         verdict = "ok"
@@ -418,9 +423,62 @@ def rule_b_comp(ctx):
             detail = _check_owning_next(ctx, R, adt, b, key)
         if name == "next" and ro.composites[adt]["family"] == "iter":
             detail = _check_byref_next(ctx, R, adt, b, key)
+        if name == "fold" and ro.composites[adt]["family"] in ("iter", "into", "drain"):
+            detail = _check_visit_order(ctx, R, adt, b, key)
         R.inst(fn=b.path, adt=adt, method=name, sides=sorted(sides), verdict=verdict, **detail)
     R.floor(6, "composite-iterator methods")
     return R
+
+
+NON_CONSUMING = {"size_hint", "len", "clone", "iter", "as_ref", "as_mut", "is_some", "is_none", "is_empty", "fmt", "deref", "deref_mut", "borrow", "borrow_mut"}
+
+
+def _check_visit_order(ctx, R, adt, b, key):
+    """A method of a composite iterator that drives both sides itself (fold and friends) enumerates in the order next() does — main
+    side first for the by-reference iterators, old side first for the owning ones: an iterator has one enumeration order however it is
+    driven (Iterator::fold is specified as the next() loop; keys() and values() only line up if every driver agrees)."""
+    fam = ctx.roles.composites[adt]["family"]
+    first, second = ("IT_MAIN", "IT_OLD") if fam == "iter" else ("IT_OLD", "IT_MAIN")
+    uses = {"IT_MAIN": [], "IT_OLD": []}
+    for bd in [b] + ctx.facts.closures_of(b):
+        for c in ctx.calls(bd):
+            if bd.is_cleanup(c.loc.bb) or not c.args or c.method in NON_CONSUMING or c.name in ("core::mem::drop",):
+                continue
+            if c.args[0]["k"] not in ("copy", "move"):
+                continue
+            side = _side_of_receiver(ctx, bd, c)
+            if side not in uses:
+                continue
+            # where the use happens in b itself: the call, or the call that receives the closure it sits in
+            loc = c.loc
+            x = bd
+            while x is not b:
+                from rules_colour import closure_call_site
+                cs = closure_call_site(ctx, x)
+                if cs is None:
+                    loc = None
+                    break
+                x, cc = cs
+                loc = cc.loc
+            if loc is not None:
+                uses[side].append((loc, c))
+    res = {"visit_order": None}
+    if not uses[first] or not uses[second]:
+        return res
+    res["visit_order"] = "%s side first" % ("main" if first == "IT_MAIN" else "old")
+    for l2, c2 in uses[second]:
+        reach = b.reach_from([l2.bb])
+        for l1, c1 in uses[first]:
+            later = (l1.bb in reach and l1.bb != l2.bb) or (l1.bb == l2.bb and l1.i > l2.i) \
+                or (l1.bb == l2.bb and l1.bb in b.reach_from(list(b.succs(l2.bb))))
+            if later:
+                res["visit_order"] = "VIOLATION"
+                R.viol(key + ":visit-order", c2.where(), "%s consumes the %s side (%s at %s) before the %s side (%s at %s), but next() of %s yields the %s side "
+                       "first: the same iterator enumerates in two different orders depending on how it is driven"
+                       % (b.path, "old" if second == "IT_OLD" else "main", c2.method, c2.where(), "main" if first == "IT_MAIN" else "old", c1.method, c1.where(),
+                          adt, "main" if first == "IT_MAIN" else "old"))
+                return res
+    return res
 
 
 def _side_of_receiver(ctx, b, c):
@@ -473,6 +531,9 @@ def _check_size_hint(ctx, R, adt, b, key):
     if main_sh and old_sh:
         # (1) summed in this body
         if all(bd is b for bd, _ in old_sh):
+            exact = _exact_size_hint(ctx, R, adt, b, key, main_sh, [c for _, c in old_sh])
+            if exact is not None:
+                return exact
             res = {}
             bad = False
             for rb in b.return_blocks():
@@ -504,6 +565,10 @@ def _check_size_hint(ctx, R, adt, b, key):
                     oi = i
             if mi is None or oi is None or mi == oi:
                 continue
+            exact = _exact_size_hint(ctx, R, adt, lc, key, [], [], helper_args=(mi, oi))
+            if exact is not None:
+                exact["summed_by"] = lc.path
+                return exact
             res = {"summed_by": lc.path}
             found = False
             from rules_typestate import option_test_edges, N as N__
@@ -546,6 +611,71 @@ def _check_size_hint(ctx, R, adt, b, key):
         return {"delegates_to": lc.path, "via": mk.tname if mk else None}
     R.viol(key + ":no-hints", b.where(Loc(0, 0)), "size_hint of %s does not consult both sides" % adt)
     return {}
+
+
+def _exact_size_hint(ctx, R, adt, b, key, main_sh, old_sh, helper_args=None):
+    """Decide a size_hint body exactly (hintexec): on every path that consults the old side the result is (M0+O0, M1+O1) — the upper
+    bound may stay M1 where the old side's upper bound is None, as long as some path adds it — and a path that does not consult it
+    is one on which the old side is absent and returns the main side's own hint.  None when the body is outside what hintexec
+    evaluates (the dependence check then decides)."""
+    from hintexec import HintExec, Inconclusive, UNK
+    from rules_typestate import N as N__, S as S__
+    try:
+        if helper_args is None:
+            hx = HintExec(ctx, b, [c.loc for c in main_sh], [c.loc for c in old_sh], _old_field_edges(ctx, b))
+        else:
+            # b is a helper handed (main hint, old hint): its parameters are the two hints; an Option-typed old hint may be absent
+            from rules_typestate import option_test_edges
+            mi, oi = helper_args
+            edges = option_test_edges(ctx, b, lambda p_: p_.root == oi + 1 and not p_.fields(), ignore_debug=False)
+            hx = HintExec(ctx, b, [], [], edges, polled0=True,
+                          init_env={(0, mi + 1): ("tuple", (("sum", ("M0",)), ("sum", ("M1",)))), (0, oi + 1): ("tuple", (("sum", ("O0",)), ("sum", ("O1",))))})
+        results = hx.run()
+    except (Inconclusive, RecursionError, KeyError, IndexError, TypeError):
+        return None
+    if not results:
+        return None
+    want = {0: ("sum", ("M0", "O0")), 1: ("sum", ("M1", "O1"))}
+    alone = {0: ("sum", ("M0",)), 1: ("sum", ("M1",))}
+    for val, polled, crossed, path in results:
+        if not (isinstance(val, tuple) and val and val[0] == "tuple" and len(val[1]) == 2) or any(x == UNK or not (isinstance(x, tuple) and x[0] == "sum") for x in val[1]):
+            return None
+    res = {"decided": "exactly, over %d paths" % len(results)}
+    bad = set()
+    upper_added = False
+
+    def show(x):
+        return " + ".join({"M0": "main.lower", "M1": "main.upper", "O0": "old.lower", "O1": "old.upper"}[a] for a in x[1]) or "0"
+    for val, polled, crossed, path in results:
+        c0, c1 = val[1]
+        where = b.where(Loc(path[-1], 0))
+        trail = " -> ".join("bb%d" % x for x in path)
+        if polled and N__ not in crossed:
+            if c0 != want[0] and 0 not in bad:
+                bad.add(0)
+                R.viol(key + ":component0", where, "component 0 of %s's size_hint is %s on a path that consults the old side (%s): not the sum of the "
+                       "main-side and old-side lower bounds" % (adt, show(c0), trail))
+            if c1 == want[1]:
+                upper_added = True
+            elif c1 != alone[1] and 1 not in bad:
+                bad.add(1)
+                R.viol(key + ":component1", where, "component 1 of %s's size_hint is %s on a path that consults the old side (%s): not the sum of the "
+                       "main-side and old-side upper bounds" % (adt, show(c1), trail))
+        else:
+            if N__ not in crossed:
+                R.viol(key + ":one-sided-path", where, "size_hint of %s can return without consulting the old side on a path (%s) where the old side "
+                       "is not known to be absent" % (adt, trail))
+            for i, c in ((0, c0), (1, c1)):
+                if c != alone[i] and ("a", i) not in bad:
+                    bad.add(("a", i))
+                    R.viol(key + ":component%d:absent" % i, where, "with the old side absent, component %d of %s's size_hint is %s, not the main side's own (%s)"
+                           % (i, adt, show(c), trail))
+    if any(p and N__ not in cr for _, p, cr, _ in results) and not upper_added and 1 not in bad:
+        bad.add(1)
+        R.viol(key + ":component1", b.where(Loc(0, 0)), "no path of %s's size_hint adds the old side's upper bound to the main side's" % adt)
+    res["component0"] = "NOT-SUM" if 0 in bad else "main+old"
+    res["component1"] = "NOT-SUM" if 1 in bad else "main+old"
+    return res
 
 
 def _old_field_edges(ctx, b):
